@@ -1,6 +1,6 @@
 PROPERTY = "C06"
 LEVEL = "proof"
-LEAN_MODULES = ["CifModel.Props.C06", "CifModel.Props.C04", "CifModel.Model.StoreSchema", "CifModel.Props.ReviewC06", "CifModel.Lemmas.StoreSpecIter"]
+LEAN_MODULES = ["CifModel.Props.C06", "CifModel.Props.C04", "CifModel.Model.StoreSchema", "CifModel.Props.ReviewC06", "CifModel.Props.ReviewRC06", "CifModel.Lemmas.StoreSpecIter"]
 REQUIRED = ["CifModel.C06_delivers_each_once", "CifModel.C06_packet_complete", "CifModel.C06_open", "CifModel.C06_caller_packet", "CifModel.C06_open_wf", "CifModel.C06_open_refused",
             "CifModel.C06_state_machine", "CifModel.C06_update_only_named_items", "CifModel.C06_close_commits", "CifModel.C06_abort_reverts",
             "CifModel.C06_frees_cif", "CifModel.C06_packet_is_stored", "CifModel.C06_open_refines", "CifModel.C06_refines_calls",
@@ -32,6 +32,11 @@ PARTIAL = [
     "C06_session_in_history additionally say what is still pending afterwards and therefore consider a segment that does not close or abort "
     "the iterator; the store-level statements C06_open_refines, C06_refines_calls, C06_close_abort_refine, C06_packet_is_stored remain "
     "(they are what the world-level cases are composed from)",
+    "'for a loop that no longer exists cif_loop_get_packets returns CIF_INVALID_HANDLE' is OUT of contract inside histories (okLOpen = the CIF is "
+    "busy, or the handle is valid): the history theorems carry it only for a busy CIF (specItOpenRefused); for a free CIF the one-step "
+    "C06_open_refused (store level: no items => CIF_INVALID_HANDLE) is all there is. C06_pending_kept / step_other ('no other op changes what is "
+    "pending') hold largely BY the contract (every non-iterator call on the iterated CIF is out of contract); what is left is independence of "
+    "CIFs, the refused second get_packets, and own update / remove acting behind the position",
     "exactly-once delivery rests on distinct row numbers per packet: IterOk.keys (item_value's primary key, part of Inv) and IterOk.sorted",
     "update packets with a repeated key are excluded (Call.keysOk: a packet is a map); an update naming an item of another loop is "
     "CIF_WRONG_LOOP and changes nothing (ROLLBACK_TO)",
